@@ -8,6 +8,8 @@ cd "$(dirname "$0")/.."
 export GOFLAGS=-mod=mod GOPROXY=off GOSUMDB=off GOTOOLCHAIN=local
 TIER=${1:-quick}; shift || true
 IDS="$*"; [ -z "$IDS" ] && IDS=$(ls seeded | grep -v INDEX)
+# changes that a later fix: commit made harmless ("obsolete_since" in meta.json) are skipped
+IDS=$(for i in $IDS; do grep -q '"obsolete_since"' seeded/$i/meta.json 2>/dev/null || echo $i; done)
 one() {
   id=$1; WT=/var/tmp/rs-$id
   rm -rf "$WT"; git -C /repo worktree add -q --detach "$WT" HEAD 2>/dev/null || { echo "$id WORKTREE-FAILED"; return; }
